@@ -43,7 +43,8 @@ theorem only_matches_spec (ofType : Bool) (l : Loc) (hl : LocalOk l) :
 
 /-! ## attribute operators -/
 
-/-- every attribute operator on one attribute value, inside the domain `valOk` -/
+/-- every attribute operator on one attribute value: empty values of `~= ^= $= *=` match nothing,
+    the `i` flag is ASCII case-insensitive; `valOk` excludes only non-empty blank values of `^= $= *=` -/
 theorem attr_value_matches_spec (val : Str) (op : AttrOp) (ic : Bool) (s : Str) (hne : op ≠ .ne)
     (hv : valOk op val = true) : valMatch val op ic s = true ↔ ValHolds op ic val s :=
   valMatch_iff val op ic s hne hv
@@ -53,24 +54,26 @@ example : valOk .pre ['x', ' '] = true := by decide
 /-! ## the matching relation -/
 
 /-
-  Full statement (FALSE on the current code, see the witnesses below):
+  Full statement (false on the code as it is, see `blank_value_deviation_witness`):
     theorem matches_iff_spec (hS : DomOk S) : ∀ s l, S l → (selMatch s l = true ↔ Matches s l)
-  Proved: the same with `selOk s`, which excludes `[a~=""]` and `[a^=v] [a$=v] [a*=v]` with a
-  blank `v` (the code tests the attribute for blankness, not the value for emptiness).
+  Proved: the same with `selOk s`, which only excludes `[a^=v] [a$=v] [a*=v]` with a NON-EMPTY
+  BLANK `v`: the code never lets these operators match a blank attribute value (the repository's
+  baseline tests require it), the definition lets `[a^=" "]` match `a="  "`.  Empty values,
+  `~=`, class selectors and everything else are inside the proved domain.
 -/
 mutual
 theorem matches_iff_spec_partial {S : Loc → Prop} (hS : DomOk S) :
       ∀ (s : Sel), selOk s = true → ∀ l, S l → (selMatch s l = true ↔ Matches s l)
     | .tag name, _, l, _ => tag_iff name l
-    | .cls name, hs, l, hl => cls_iff name l (hS.ok l hl) (by simpa [selOk] using hs)
-    | .id name, _, l, hl => id_iff name l (hS.ok l hl)
+    | .cls name, _, l, _ => cls_iff name l
+    | .id name, _, l, _ => id_iff name l
     | .attr key val op ic, hs, l, hl => by
       have : selMatch (.attr key val op ic) l = attrMatch key val op ic l := by simp [selMatch]
       rw [this, Matches]
-      exact attr_iff key val op ic l (hS.ok l hl) (by simpa [selOk] using hs)
+      exact attr_iff key val op ic l (by simpa [selOk] using hs)
     | .nth a b last ofType, _, l, hl => nth_iff a b last ofType l (hS.ok l hl)
     | .only ofType, _, l, hl => only_iff ofType l (hS.ok l hl)
-    | .empty, _, l, hl => empty_iff l (hS.ok l hl)
+    | .empty, _, l, _ => empty_iff l
     | .root, _, l, hl => root_iff l (hS.ok l hl)
     | .never _, _, l, _ => by simp [selMatch, Matches]
     | .rel k args, hs, l, hl => by
@@ -157,7 +160,7 @@ theorem matches_iff_spec_partial {S : Loc → Prop} (hS : DomOk S) :
             rcases split_cases hsp2 with ⟨m, h1, h2⟩ | ⟨_, h2, _⟩ | ⟨m, h1, h2⟩
             · -- s lies strictly before e: s is not an element, so it is an `other` node
               have hsne : ¬ IsElem s := hbetween s (by rw [h1]; simp)
-              have hso : s.kind = .other := by
+              have hso : s.kind = .other ∨ s.kind = .doc := by
                 simp only [IsElem] at hsne
                 simp only [Bool.and_eq_true, bne_iff_ne, ne_eq] at hps
                 cases hk : s.kind <;> simp_all
@@ -210,7 +213,7 @@ theorem matches_iff_spec_document_partial (root : Node) (h : ∀ l ∈ allLocs r
 
 /-- `<html><body><a></a> <b k="x"><!----></b></body></html>` under its Document node -/
 def exampleDoc : Node :=
-  .mk .other [] [] [.mk .elem htmlTag [] [.mk .elem ['b', 'o', 'd', 'y'] [] [
+  .mk .doc [] [] [.mk .elem htmlTag [] [.mk .elem ['b', 'o', 'd', 'y'] [] [
     .mk .elem ['a'] [] [], .mk .text [' '] [] [], .mk .elem ['b'] [(['k'], ['x'])] [.mk .comment [] [] []]]]]
 
 example : ∀ l ∈ allLocs exampleDoc, LocalOk l := by
@@ -219,117 +222,82 @@ example : ∀ l ∈ allLocs exampleDoc, LocalOk l := by
     List.mem_cons, List.not_mem_nil, or_false] at hl
   rcases hl with rfl | rfl | rfl | rfl | rfl | rfl | rfl
   all_goals
-    refine ⟨?_, ?_, ?_, ?_, other_ok_of_none ?_⟩
+    refine ⟨?_, ?_, other_ok_of_none ?_⟩
   all_goals simp [Loc.kind, Loc.data, Loc.attrs, Node.kind, Node.data, Node.attrs, Node.children, Loc.parent?,
       Loc.plug, Loc.children, Loc.childrenAux, Loc.prevSibs, Loc.prevAux, htmlTag, isGoSpace, isDocWs]
 
-example : selOk (.combined (.rel .not [.cls ['c'], .attr ['k'] ['x'] .pre true]) .adj (.compound [] [.tag ['b'], .nth (-2) 5 true true])) = true := by
+example : selOk (.combined (.rel .not [.cls [], .attr ['k'] [] .pre true, .attr ['k'] ['x', ' '] .sub true]) .adj (.compound [] [.tag ['b'], .nth (-2) 5 true true])) = true := by
   decide
-
-/-- the empty document satisfies `DomOk` (see `domOk_allLocs` for every well-formed tree) -/
-example : DomOk (fun l => l = ⟨.mk .other [] [] [], []⟩) where
-  anc := by rintro l rfl p hp; simp [Loc.ancestors, Loc.ancestorsAux] at hp
-  prev := by rintro l rfl p hp; simp [Loc.prevSibs] at hp
-  kids := by rintro l rfl p hp; simp [Loc.children, Loc.childrenAux, Node.children] at hp
-  desc := by rintro l rfl p hp; simp [Loc.descendants, descNode, descList] at hp
-  ok := by
-    rintro l rfl
-    refine ⟨fun _ => rfl, fun h => ?_, fun h => ?_, ?_, ?_⟩
-    · simp [Loc.kind, Node.kind] at h
-    · simp [Loc.kind, Node.kind] at h
-    · intro c hc; simp [Loc.children, Loc.childrenAux, Node.children] at hc
-    · intro pre s post h; simp [Loc.prevSibs] at h
 
 /-- `<p a="x">` as the only child of a parent node -/
 def witnessLoc : Loc :=
-  ⟨.mk .elem ['p'] [(['a'], ['x'])] [], [⟨.other, [], [], [], []⟩]⟩
+  ⟨.mk .elem ['p'] [(['a'], ['x'])] [], [⟨.doc, [], [], [], []⟩]⟩
 
-/-- `[a^=""]` matches `<p a="x">` in the code; the definition says an empty value matches nothing -/
-theorem prefix_empty_value_witness :
-    selMatch (.attr ['a'] [] .pre false) witnessLoc = true ∧
-    ¬ Matches (.attr ['a'] [] .pre false) witnessLoc := by
-  refine ⟨by decide, ?_⟩
-  simp [Matches, AttrHolds, ValHolds]
+/-! regression examples (former defects KF05-1: an empty value matches nothing) -/
+example : selMatch (.attr ['a'] [] .pre false) witnessLoc = false := by decide
+example : selMatch (.attr ['a'] [] .suf false) witnessLoc = false := by decide
+example : selMatch (.attr ['a'] [] .sub false) witnessLoc = false := by decide
+example : selMatch (.attr ['a'] [] .incl false)
+    ⟨.mk .elem ['p'] [(['a'], [' ', 'x'])] [], [⟨.doc, [], [], [], []⟩]⟩ = false := by decide
+example : selMatch (.attr ['a'] ['x'] .pre false) witnessLoc = true := by decide
+/-- former KF05-6: a Doctype node with PUBLIC/SYSTEM "attributes" matches no attribute selector -/
+example : selMatch (.attr ['p'] [] .has false) ⟨.mk .other [] [(['p'], ['x'])] [], []⟩ = false := by decide
+/-- former KF05-5: a no-break space is not document white space -/
+example : selMatch .empty ⟨.mk .elem ['p'] [] [.mk .text [Char.ofNat 0xa0] [] []], []⟩ = false := by decide
+example : selMatch .empty ⟨.mk .elem ['p'] [] [.mk .text [' ', '\n'] [] [], .mk .comment ['c'] [] []], []⟩ = true := by decide
+/-- former KF05-7: `:root` needs the Document node as parent -/
+example : selMatch .root ⟨.mk .elem htmlTag [] [], [⟨.elem, ['s', 'v', 'g'], [], [], []⟩]⟩ = false := by decide
+example : selMatch .root ⟨.mk .elem htmlTag [] [], [⟨.doc, [], [], [], []⟩]⟩ = true := by decide
 
-theorem suffix_empty_value_witness :
-    selMatch (.attr ['a'] [] .suf false) witnessLoc = true ∧
-    ¬ Matches (.attr ['a'] [] .suf false) witnessLoc := by
+/-- the documented deviation: `[a^=" "]` does not match `<p a="  ">` in the code (no prefix /
+    suffix / substring operator matches a blank attribute value), the definition says it matches -/
+theorem blank_value_deviation_witness :
+    selMatch (.attr ['a'] [' '] .pre false)
+      ⟨.mk .elem ['p'] [(['a'], [' ', ' '])] [], [⟨.doc, [], [], [], []⟩]⟩ = false ∧
+    Matches (.attr ['a'] [' '] .pre false)
+      ⟨.mk .elem ['p'] [(['a'], [' ', ' '])] [], [⟨.doc, [], [], [], []⟩]⟩ := by
   refine ⟨by decide, ?_⟩
-  simp [Matches, AttrHolds, ValHolds]
-
-theorem substring_empty_value_witness :
-    selMatch (.attr ['a'] [] .sub false) witnessLoc = true ∧
-    ¬ Matches (.attr ['a'] [] .sub false) witnessLoc := by
-  refine ⟨by decide, ?_⟩
-  simp [Matches, AttrHolds, ValHolds]
-
-/-- `[a~=""]` matches `<p a=" x">` (leading or doubled space) in the code -/
-theorem includes_empty_value_witness :
-    selMatch (.attr ['a'] [] .incl false)
-      ⟨.mk .elem ['p'] [(['a'], [' ', 'x'])] [], [⟨.other, [], [], [], []⟩]⟩ = true ∧
-    ¬ Matches (.attr ['a'] [] .incl false)
-      ⟨.mk .elem ['p'] [(['a'], [' ', 'x'])] [], [⟨.other, [], [], [], []⟩]⟩ := by
-  refine ⟨by decide, ?_⟩
-  simp [Matches, AttrHolds, ValHolds]
+  simp only [Matches, AttrHolds, ValHolds, IsElem]
+  exact ⟨rfl, [' ', ' '], by simp [Loc.attrs, Node.attrs], by simp, [' '], [' '], rfl, rfl⟩
 
 /-! ## specificity -/
 
-/-
-  Full statement (FALSE on the current code): ∀ s, HasSpecificity s (specificity s).
-  Proved: for selectors without a never-matching pseudo-class (`weighOk`); `neverMatchSelector`
-  weighs (0,0,0) in the code, (0,1,0) by the definition — witness below.
--/
 mutual
-theorem specificity_eq_spec_partial :
-      ∀ (s : Sel), weighOk s = true → HasSpecificity s (specificity s)
-    | .tag _, _ => by simp [HasSpecificity, specificity]
-    | .cls _, _ => by simp [HasSpecificity, specificity]
-    | .id _, _ => by simp [HasSpecificity, specificity]
-    | .attr _ _ _ _, _ => by simp [HasSpecificity, specificity]
-    | .nth _ _ _ _, _ => by simp [HasSpecificity, specificity]
-    | .only _, _ => by simp [HasSpecificity, specificity]
-    | .empty, _ => by simp [HasSpecificity, specificity]
-    | .root, _ => by simp [HasSpecificity, specificity]
-    | .never _, h => by simp [weighOk] at h
-    | .rel k args, h => by
-      have h' : weighsOk args = true := by simpa [weighOk] using h
+/-- C05, specificity: for every selector, `Specificity()` is (ids, classes + attributes +
+    pseudo-classes, types + pseudo-elements), `:is/:not/:has` weighing as their most specific
+    argument (the `Less` fold returns a lexicographic maximum). -/
+theorem specificity_eq_spec : ∀ (s : Sel), HasSpecificity s (specificity s)
+    | .tag _ => by simp [HasSpecificity, specificity]
+    | .cls _ => by simp [HasSpecificity, specificity]
+    | .id _ => by simp [HasSpecificity, specificity]
+    | .attr _ _ _ _ => by simp [HasSpecificity, specificity]
+    | .nth _ _ _ _ => by simp [HasSpecificity, specificity]
+    | .only _ => by simp [HasSpecificity, specificity]
+    | .empty => by simp [HasSpecificity, specificity]
+    | .root => by simp [HasSpecificity, specificity]
+    | .never _ => by simp [HasSpecificity, specificity]
+    | .rel k args => by
       simp only [HasSpecificity, specificity, specMax_eq]
-      exact ⟨args.map specificity, list_specificity_partial args h', maxLoop_mostSpecific _⟩
-    | .compound pe sels, h => by
-      have h' : weighsOk sels = true := by simpa [weighOk] using h
+      exact ⟨args.map specificity, list_specificity args, maxLoop_mostSpecific _⟩
+    | .compound pe sels => by
       simp only [HasSpecificity, specificity, specSum_eq, zero_add']
-      refine ⟨sels.map specificity, list_specificity_partial sels h', ?_⟩
+      refine ⟨sels.map specificity, list_specificity sels, ?_⟩
       cases pe <;> simp [add_zero']
-    | .combined a _ d, h => by
-      have h' : weighOk a = true ∧ weighOk d = true := by simpa [weighOk] using h
+    | .combined a _ d => by
       simp only [HasSpecificity, specificity]
-      exact ⟨_, _, specificity_eq_spec_partial a h'.1, specificity_eq_spec_partial d h'.2, rfl⟩
-theorem list_specificity_partial :
-      ∀ (ss : List Sel), weighsOk ss = true → ListSpecificity ss (ss.map specificity)
-    | [], _ => by simp [ListSpecificity]
-    | s :: ss, h => by
-      have h' : weighOk s = true ∧ weighsOk ss = true := by simpa [weighsOk] using h
+      exact ⟨_, _, specificity_eq_spec a, specificity_eq_spec d, rfl⟩
+theorem list_specificity : ∀ (ss : List Sel), ListSpecificity ss (ss.map specificity)
+    | [] => by simp [ListSpecificity]
+    | s :: ss => by
       simp only [ListSpecificity, List.map_cons, List.cons.injEq]
-      exact ⟨_, _, ⟨rfl, rfl⟩, specificity_eq_spec_partial s h'.1, list_specificity_partial ss h'.2⟩
+      exact ⟨_, _, ⟨rfl, rfl⟩, specificity_eq_spec s, list_specificity ss⟩
 end
 
-example : weighOk (.combined (.rel .not [.cls ['c'], .id ['i']]) .child (.compound ['b'] [.tag ['a'], .root])) = true := by
+/-- regression example (former KF05-3): `a:not(:hover)` weighs (0,1,1) -/
+example : specificity (.compound [] [.tag ['a'], .rel .not [.never [':', 'h', 'o', 'v', 'e', 'r']]]) = ⟨0, 1, 1⟩ := by
   decide
 
-/-- `a:not(:hover)`: the code weighs it (0,0,1), the definition (0,1,1) -/
-theorem never_specificity_witness :
-    specificity (.compound [] [.tag ['a'], .rel .not [.never [':', 'h', 'o', 'v', 'e', 'r']]]) = ⟨0, 0, 1⟩ ∧
-    HasSpecificity (.compound [] [.tag ['a'], .rel .not [.never [':', 'h', 'o', 'v', 'e', 'r']]]) ⟨0, 1, 1⟩ := by
-  refine ⟨by decide, ?_⟩
-  simp only [HasSpecificity, ListSpecificity]
-  refine ⟨[⟨0, 0, 1⟩, ⟨0, 1, 0⟩], ⟨_, _, rfl, rfl, _, _, rfl, ⟨[⟨0, 1, 0⟩], ⟨_, _, rfl, rfl, rfl⟩, ?_⟩, rfl⟩, by decide⟩
-  refine ⟨Or.inl (by simp), ?_⟩
-  intro x hx
-  simp only [List.mem_singleton] at hx
-  subst hx
-  exact specLe_refl _
-
-/-- the specificity the definition assigns is unique, so the witness above is a real disagreement -/
+/-- the lexicographic order is antisymmetric: "the most specific argument" has a unique weight -/
 theorem specLe_antisymm {x y : Specificity} (h1 : SpecLe x y) (h2 : SpecLe y x) : x = y := by
   obtain ⟨a, b, c⟩ := x
   obtain ⟨a', b', c'⟩ := y
